@@ -37,6 +37,8 @@ type pkg struct {
 	sorder  []string
 	funcs   map[string]*ast.FuncDecl // "name" or "Recv.name"
 	vars    map[string]*ast.ValueSpec
+	imports map[string]bool // names under which the files import packages
+	raw     *pkg            // the same files parsed again, without the substitution of local constants (normalise.go)
 }
 
 func die(format string, a ...interface{}) {
@@ -44,8 +46,18 @@ func die(format string, a ...interface{}) {
 	os.Exit(2)
 }
 
+// load parses the package and applies the normalisations of normalise.go.
 func load(dir string) *pkg {
-	p := &pkg{fset: token.NewFileSet(), consts: map[string]*ast.ValueSpec{}, cidx: map[string]int{},
+	p := parseDir(dir)
+	p.normalise(true)
+	p.raw = parseDir(dir)
+	p.raw.normalise(false)
+	p.raw.raw = p.raw
+	return p
+}
+
+func parseDir(dir string) *pkg {
+	p := &pkg{imports: map[string]bool{}, fset: token.NewFileSet(), consts: map[string]*ast.ValueSpec{}, cidx: map[string]int{},
 		types: map[string]ast.Expr{}, structs: map[string]*ast.StructType{}, funcs: map[string]*ast.FuncDecl{},
 		vars: map[string]*ast.ValueSpec{}}
 	names, _ := filepath.Glob(filepath.Join(dir, "*.go"))
@@ -60,6 +72,13 @@ func load(dir string) *pkg {
 		}
 		if f.Name.Name != "astits" {
 			continue
+		}
+		for _, im := range f.Imports {
+			if im.Name != nil {
+				p.imports[im.Name.Name] = true
+			} else if path, err := strconv.Unquote(im.Path.Value); err == nil {
+				p.imports[path[strings.LastIndex(path, "/")+1:]] = true
+			}
 		}
 		for _, d := range f.Decls {
 			switch d := d.(type) {
@@ -318,7 +337,7 @@ func main() {
 	writeIfChanged(filepath.Join(out, "PoolGen.v"), p.emitStateful())
 	writeIfChanged(filepath.Join(out, "MuxGen.v"), p.emitMuxGen())
 	writeIfChanged(filepath.Join(out, "ParseGen.v"), p.emitParseGen())
-	writeIfChanged(filepath.Join(out, "DemuxGen.v"), p.emitDemuxGen())
+	writeIfChanged(filepath.Join(out, "DemuxGen.v"), p.raw.emitDemuxGen())
 	writeIfChanged(filepath.Join(out, "PsiGen.v"), p.emitPsiGen())
 	writeIfChanged(filepath.Join(out, "Alias.v"), p.emitAlias()+p.emitGlobals())
 	writeIfChanged(filepath.Join(out, "WriteGen.v"), p.emitWriteGen())
